@@ -26,7 +26,8 @@ LEAN_FILES = ["AurelVerif/Props/C13.lean", "AurelVerif/Lemmas/Store.lean", "Aure
               "AurelVerif/Model/Store.lean", "Driver/C13.lean"]
 
 IT_POOL = [0, 1, 2, 5, 10, 20, 100, 1000, -3]
-NAME_POOL = ["rho", "gxx", "alpha", "Ktrace", "x", "rho0"]
+# (includes tensor names of var_mappings.yml: a column saved under such a name is read back by that name)
+NAME_POOL = ["rho", "gxx", "alpha", "Ktrace", "x", "rho0", "gammadown3", "betaup3", "Kdown3", "Weyl_Psi", "betax"]
 BAD_NAMES = ["q rl=1", "a rl", "rho rl=0", "b rl=10 c", " rl"]
 RL_POOL = [0, 1, 2, 10, 11, 100]
 SHAPES = [(), (2,), (2, 2), (1, 3)]
